@@ -4,8 +4,8 @@ CONSTANTS
   Tampers <- MCTampers
   Flags <- MCFlags
   Anchors = {TRUE, FALSE}
-  Fallbacks = {"none", "honest", "lying"}
-  FailoverRule = "statement"
+  Fallbacks = {"none"}
+  FailoverRule = "asbuilt"
 SPECIFICATION Spec
 INVARIANTS TruthOrServfail NeverAlteredData VerdictIsFinal ADImpliesSecure InsecureOnlyByProof NoAnchorFailsClosed ServfailHasEDE
 PROPERTIES Terminates
